@@ -583,3 +583,39 @@ Proof.
   { destruct (Nat.lt_trichotomy k k') as [Hlt|[Heq|Hgt]]; [|exact Heq|]; exfalso; nia. }
   subst k'. split; [lia | reflexivity].
 Qed.
+
+(* ------------------------------------------------------------------ Mesh.refined: the dispatch *)
+Lemma nonzero_spec mask k : In k (nonzero mask) <-> nth k mask false = true.
+Proof.
+  unfold nonzero. rewrite filter_In, in_seq. split; [tauto|]. intros H. split; [|exact H].
+  destruct (Nat.lt_ge_cases k (length mask)) as [L|L]; [lia|]. rewrite nth_overflow in H by exact L. discriminate.
+Qed.
+
+Section Dispatch.
+  Context {M : Type} (ustep : M -> M) (adapt : list nat -> M -> M).
+
+  (* scalar n: exactly n passes; n <= 0: the mesh itself; counts add up *)
+  Theorem refined_scalar_nonpos n m : (n <= 0)%Z -> refined_dispatch ustep adapt (RScalar n) m = m.
+  Proof. intros H. simpl. replace (Z.to_nat n) with 0 by lia. reflexivity. Qed.
+
+  Theorem refined_scalar_succ n m : (0 <= n)%Z ->
+    refined_dispatch ustep adapt (RScalar (n + 1)) m = ustep (refined_dispatch ustep adapt (RScalar n) m).
+  Proof. intros H. simpl. replace (Z.to_nat (n + 1)) with (S (Z.to_nat n)) by lia. reflexivity. Qed.
+
+  Theorem refined_scalar_add a b m : (0 <= a)%Z -> (0 <= b)%Z ->
+    refined_dispatch ustep adapt (RScalar (a + b)) m
+    = refined_dispatch ustep adapt (RScalar b) (refined_dispatch ustep adapt (RScalar a) m).
+  Proof.
+    intros Ha Hb. simpl. replace (Z.to_nat (a + b)) with (Z.to_nat b + Z.to_nat a) by lia.
+    generalize (Z.to_nat b) as nb. intros nb. induction nb as [|nb IH]; simpl; [reflexivity | now rewrite IH].
+  Qed.
+
+  (* index collections are handed to _adaptive unchanged; a mask selects exactly its true positions *)
+  Theorem refined_index ix m : refined_dispatch ustep adapt (RIndex ix) m = adapt ix m.
+  Proof. reflexivity. Qed.
+
+  Theorem refined_mask mask m :
+    refined_dispatch ustep adapt (RMask mask) m = refined_dispatch ustep adapt (RIndex (nonzero mask)) m /\
+    (forall k, In k (nonzero mask) <-> nth k mask false = true).
+  Proof. split; [reflexivity | apply nonzero_spec]. Qed.
+End Dispatch.
